@@ -78,7 +78,7 @@ type Monitor struct {
 	Also map[string]bool
 }
 
-var quietOps = map[string]bool{"typetest": true, "has": true, "maplookup": true}
+var quietOps = map[string]bool{"typetest": true, "has": true, "maplookup": true, "index": true}
 
 type Witness struct {
 	Msg   string
@@ -252,9 +252,12 @@ func (g *Graph) Words(limit int) ([][]*Event, bool) {
 }
 
 func wordString(w []*Event) string {
-	parts := make([]string, len(w))
-	for i, e := range w {
-		parts[i] = e.String()
+	var parts []string
+	for _, e := range w {
+		if e.Op == "index" {
+			continue // bookkeeping for the path-sensitive bounds proof
+		}
+		parts = append(parts, e.String())
 	}
 	return strings.Join(parts, " ; ")
 }
